@@ -28,6 +28,11 @@ def family(seed, tier):
         d = s.doc()
         d["name"] = "c06-%d-dups" % k
         docs += [(d["name"], d), (first["name"], first)]
+    # bank-era chain: PEG requests held across unrated blocks that contain copies of them
+    import copy as _c
+    g = scen.peg_window_chain(seed, name="c06-pegwin-dups", dups=True)
+    f = scen.peg_window_chain(seed, name="c06-pegwin-first", dups=False)
+    docs += [(g.s["name"], g.doc()), (f.s["name"], f.doc())]
     return docs
 
 
